@@ -87,6 +87,20 @@ Theorem c12_hdr_truncation_payload : forall p mt rs r a b st,
 Proof. exact hdr_truncation_payload. Qed.
 Print Assumptions c12_hdr_truncation_payload.
 
+(* truncation anywhere inside a record - in its header block or in its payload: the complete
+   records, then an error and NO bytes (err_tail e = [IErr e] or [IErr e; IErr EEOF]).  The one
+   exception is stated exactly: an EMPTY record whose header block lacks only its final LF is
+   returned (complete, empty, not shortened). *)
+Theorem c12_hdr_truncation : forall p mt rs r pre suf st,
+  usable_mime mt = true -> st <= buf_bound ->
+  Forall (fun r => (Z.of_nat (length r) <= max_int)%Z) rs -> (Z.of_nat (length r) <= max_int)%Z ->
+  HdrProofs.enc mt r = pre ++ suf -> pre <> [] -> suf <> [] ->
+  exists tail,
+    Hdr.recv_all cfg_fixed p mt st (concat (map (HdrProofs.enc mt) rs) ++ pre) = map IRec rs ++ tail /\
+    ((exists e, tail = err_tail e) \/ (r = [] /\ suf = [10] /\ tail = [IRec []; IErr EEOF])).
+Proof. exact hdr_truncation. Qed.
+Print Assumptions c12_hdr_truncation.
+
 Theorem c12_hdr_exhausted : forall c p want st,
   Hdr.recv c p want st [] = Err EEOF st [] /\ Hdr.recv_all c p want st [] = [IErr EEOF].
 Proof. exact hdr_exhausted. Qed.
